@@ -4,3 +4,10 @@ package cachecontroller
 
 // VerifWait blocks until every invalidation run started so far has completed.
 func (c *InMemoryCacheController) VerifWait() { c.wg.Wait() }
+
+// VerifInflight reports the number of stores with an invalidation run registered as in flight.
+func (c *InMemoryCacheController) VerifInflight() int {
+	n := 0
+	c.inflightInvalidations.Range(func(_, _ any) bool { n++; return true })
+	return n
+}
